@@ -8,6 +8,7 @@ import (
 	"archive/zip"
 	"bytes"
 	"compress/flate"
+	"compress/gzip"
 	"encoding/binary"
 	"fmt"
 	"hash/crc32"
@@ -360,7 +361,85 @@ func mutateText(r *hx.Rand, base []byte, sh textShape, other func() []byte) ([]b
 // mutateBytes is the format-blind mutator for binary content.
 func mutateBytes(r *hx.Rand, base []byte) ([]byte, string) {
 	b := append([]byte(nil), base...)
-	switch r.Intn(8) {
+	switch r.Intn(14) {
+	case 8:
+		// a length / count / offset field one off: width 1, 2, 4 or 8, either
+		// byte order, at an aligned position
+		w := 1 << uint(r.Intn(4))
+		if len(b) >= w {
+			at := r.Intn(len(b)-w+1) &^ (w - 1)
+			var ord binary.ByteOrder = binary.LittleEndian
+			if r.Chance(1, 2) {
+				ord = binary.BigEndian
+			}
+			d := uint64(1)
+			if r.Chance(1, 2) {
+				d = ^uint64(0)
+			}
+			switch w {
+			case 1:
+				b[at] += byte(d)
+			case 2:
+				ord.PutUint16(b[at:], ord.Uint16(b[at:])+uint16(d))
+			case 4:
+				ord.PutUint32(b[at:], ord.Uint32(b[at:])+uint32(d))
+			case 8:
+				ord.PutUint64(b[at:], ord.Uint64(b[at:])+d)
+			}
+		}
+		return b, "field-plus-minus-1"
+	case 9:
+		for k := 1 + r.Intn(3); k > 0 && len(b) >= 2; k-- {
+			v := []uint16{0, 1, 0x7fff, 0x8000, 0xffff, 0xfffe, uint16(len(b))}[r.Intn(7)]
+			at := r.Intn(len(b) - 1)
+			if r.Chance(1, 2) {
+				binary.LittleEndian.PutUint16(b[at:], v)
+			} else {
+				binary.BigEndian.PutUint16(b[at:], v)
+			}
+		}
+		return b, "set-u16"
+	case 10:
+		if len(b) >= 8 {
+			v := []uint64{1<<63 - 1, 1 << 63, ^uint64(0), 1 << 40, 1 << 32, uint64(len(b)) + 1, 1 << 62}[r.Intn(7)]
+			at := r.Intn(len(b)-7) &^ 3
+			if r.Chance(1, 2) {
+				binary.LittleEndian.PutUint64(b[at:], v)
+			} else {
+				binary.BigEndian.PutUint64(b[at:], v)
+			}
+		}
+		return b, "set-u64"
+	case 11:
+		// two records of a table swapped / one copied over another
+		sz := []int{4, 8, 12, 16, 24, 32, 40, 64}[r.Intn(8)]
+		if len(b) >= 3*sz {
+			i, j := r.Intn(len(b)/sz-1)*sz, r.Intn(len(b)/sz-1)*sz
+			t := append([]byte(nil), b[i:i+sz]...)
+			copy(b[i:i+sz], b[j:j+sz])
+			if r.Chance(1, 2) {
+				copy(b[j:j+sz], t)
+			}
+		}
+		return b, "swap-records"
+	case 12:
+		// cut at a structural boundary, or one byte off it
+		al := []int{16, 64, 512, 4096}[r.Intn(4)]
+		if len(b) > al {
+			c := (1+r.Intn(len(b)/al))*al + r.Intn(3) - 1
+			if c > 0 && c < len(b) {
+				b = b[:c]
+			}
+		}
+		return b, "trunc-aligned"
+	case 13:
+		// the head of the file (magic and header fields) spliced in further down
+		if len(b) > 128 {
+			n := []int{4, 16, 64, 100}[r.Intn(4)]
+			at := r.Intn(len(b)-n) &^ 3
+			copy(b[at:], b[:n])
+		}
+		return b, "head-splice"
 	case 0:
 		if len(b) > 0 {
 			b = b[:r.Intn(len(b))]
@@ -1994,6 +2073,26 @@ var oddities = []oddity{
 			b = append(b, rawTarHeader(fmt.Sprintf("usr/lib/node_modules/p%d/package.json", k%1500), '0', 0, "", 0o755)...)
 		}
 		return append(b, rawTarEnd()...)
+	}},
+	{"compressed-blob", func(r *hx.Rand) []byte {
+		// what a layer looks like when it was not decompressed: Init sees a
+		// gzip / zstd / bzip2 / xz stream, or a tar stream after such a header
+		plain := lyTar(r, []lyFile{{name: "etc/os-release", body: genOsRelease(r)}}, true)
+		switch r.Intn(5) {
+		case 0:
+			var buf bytes.Buffer
+			zw := gzip.NewWriter(&buf)
+			zw.Write(plain)
+			zw.Close()
+			return buf.Bytes()
+		case 1:
+			return cat([]byte{0x28, 0xb5, 0x2f, 0xfd, 0x04, 0x58}, lyRandBytes(r, 600))
+		case 2:
+			return cat([]byte("BZh91AY&SY"), lyRandBytes(r, 600))
+		case 3:
+			return cat([]byte{0xfd, '7', 'z', 'X', 'Z', 0, 0, 4}, plain)
+		}
+		return cat([]byte{0x1f, 0x8b, 8, 0, 0, 0, 0, 0, 0, 3}, plain)
 	}},
 	{"gnu-longname", func(r *hx.Rand) []byte {
 		name := strings.Repeat("n", 5000) + "/etc/os-release\x00"
